@@ -170,12 +170,15 @@ func C06_multi() {
 	strategy := sym.Choice("list strategy", c06Strategies)
 	elems := c06Elems(n, strategy == 2)
 	root := c06Root(strategy, elems)
-	alias := sym.Choice("alias", 2) == 1
 	doc := "{l{a s} a}"
 	akey := "a"
-	if alias {
+	switch sym.Choice("alias", 3) {
+	case 1:
 		doc = "{l{x:a s} a}"
 		akey = "x"
+	case 2: // the alias the library itself uses for the operation's own field
+		doc = "{l{data:a s} a}"
+		akey = "data"
 	}
 	sym.Budget(8_000_000)
 	res := root.ResolveString(doc, "", nil)
